@@ -65,6 +65,17 @@ pub fn sigma_wide() -> Vec<String> {
     ] {
         v.push(c.to_string());
     }
+    // characters whose low 8 or low 16 bits alias an ASCII character with a syntactic role
+    // (a `char as u8` / `as u16` truncation somewhere in a lexer would confuse them with it)
+    for a in "019.eE+-\"[]{},:\\ \n\ttrufalsn/".chars() {
+        for base in [0x100u32, 0x10000] {
+            if let Some(c) = char::from_u32(base + a as u32) {
+                v.push(c.to_string());
+            }
+        }
+    }
+    v.sort();
+    v.dedup();
     v
 }
 
